@@ -28,12 +28,29 @@ import (
 	"github.com/alecthomas/participle/v2/lexer"
 )
 
+// filterLexer is the text/scanner lexer plus names for the punctuation the
+// grammar uses: the grammar constrains its literals to these token types, so
+// that a quoted string is never taken for an operator or keyword (strings are
+// unquoted before matching, and a literal without a type constraint matches
+// any token with that text, e.g. "AND" or "!").
+type filterLexer struct{ lexer.Definition }
+
+func (l filterLexer) Symbols() map[string]lexer.TokenType {
+	syms := map[string]lexer.TokenType{
+		"LParen": '(', "RParen": ')', "Colon": ':', "Dot": '.', "Comma": ',', "Equals": '=', "Bang": '!', "Minus": '-',
+	}
+	for name, t := range l.Definition.Symbols() {
+		syms[name] = t
+	}
+	return syms
+}
+
 var DefaultParserOptions = []participle.Option{
 	// the filter language has no comments: hand them to the parser as tokens,
 	// which the grammar rejects, instead of skipping them
-	participle.Lexer(lexer.NewTextScannerLexer(func(s *scanner.Scanner) {
+	participle.Lexer(filterLexer{lexer.NewTextScannerLexer(func(s *scanner.Scanner) {
 		s.Mode &^= scanner.SkipComments
-	})),
+	})}),
 	participle.UseLookahead(50),
 	// attribute values (or prefixes) need to be unquoted
 	participle.Unquote("String"),
